@@ -299,6 +299,146 @@ fn driver_enabled_tasks(d: &DriverRig, keys: &[RecordKey]) -> Vec<usize> {
     out
 }
 
+/// Second differential pass, on complete flows: every sequence of <= 3 API operations, each followed by the FIFO
+/// schedule to quiescence, on the store rig and on a real SwarmDriver side by side. The settled-state clauses of C01
+/// (readable as written, listed with the type of the latest write, removed = gone) are judged on the *driver* side,
+/// so a change in the real notification handling is a verdict about the property; a remaining difference between rig
+/// and driver is a machinery error.
+pub fn c01_flow_differential(run: &Run) {
+    let peer = rigs::fixtures::peer_id(1);
+    let uni = crate::c01::universe(peer);
+    let mut alphabet: Vec<DOp> = vec![];
+    for k in 0..3 {
+        for v in 0..2 {
+            alphabet.push(DOp::Put(k, v));
+        }
+    }
+    for k in 0..3 {
+        alphabet.push(DOp::Remove(k));
+    }
+    let mut histories: Vec<Vec<DOp>> = vec![];
+    mc_core::enumerate::sequences(&alphabet, 3, |s| histories.push(s.to_vec()));
+    let total = histories.len();
+    let next = std::sync::atomic::AtomicUsize::new(0);
+    let first_mismatch: std::sync::Mutex<Option<String>> = std::sync::Mutex::new(None);
+    std::thread::scope(|sc| {
+        for _ in 0..mc_core::workers() {
+            sc.spawn(|| loop {
+                let i = next.fetch_add(1, std::sync::atomic::Ordering::Relaxed);
+                if i >= total {
+                    break;
+                }
+                let h = &histories[i];
+                let s1 = crate::c01::fresh_scratch("c01-flow-store");
+                let s2 = crate::c01::fresh_scratch("c01-flow-driver");
+                let mut a = StoreRig::new(&s1, RigCfg { max_records: 16 * 1024, cache_size: 25 }, peer);
+                a.settle();
+                let mut b = DriverRig::new_node(1, &s2);
+                // reference: the latest operation per key
+                let mut latest: Vec<Option<Option<usize>>> = vec![None; 3]; // None = untouched, Some(None) = removed, Some(Some(v)) = put v
+                for (step, op) in h.iter().enumerate() {
+                    match op {
+                        DOp::Put(k, v) => {
+                            let (key, val) = (&uni.keys[*k], &uni.values[*k][*v]);
+                            let _ = a.put(key, val);
+                            let rec = Record { key: key.clone(), value: val.clone(), publisher: None, expires: None };
+                            let before = b.exec.task_count();
+                            let _ = b.handle_local(LocalSwarmCmd::PutLocalRecord { record: rec });
+                            for id in before..b.exec.task_count() {
+                                if b.exec.info(id).func.ends_with("::put_verified") {
+                                    b.exec.set_tag(id, &hexkey(key));
+                                }
+                            }
+                            latest[*k] = Some(Some(*v));
+                        }
+                        DOp::Remove(k) => {
+                            let key = &uni.keys[*k];
+                            a.remove(key);
+                            let st = &mut b.driver;
+                            let _ = b.exec.capture(None, &hexkey(key), || st.verif_store().remove(key));
+                            latest[*k] = Some(None);
+                        }
+                        _ => {}
+                    }
+                    // the FIFO schedule to quiescence on both sides
+                    a.settle();
+                    for _ in 0..64 {
+                        let mut progressed = false;
+                        for id in b.exec.unfinished() {
+                            let _ = b.exec.run_until_blocked(id);
+                            progressed = true;
+                        }
+                        while let Some(c) = b.next_local_cmd() {
+                            let tag = match &c {
+                                LocalSwarmCmd::RemoveFailedLocalRecord { key } | LocalSwarmCmd::AddLocalRecordAsStored { key, .. } => hexkey(key),
+                                _ => "driver".into(),
+                            };
+                            let d = &mut b.driver;
+                            let _ = b.exec.capture(None, &tag, || d.verif_handle_local_cmd(c));
+                            progressed = true;
+                        }
+                        if !progressed {
+                            break;
+                        }
+                    }
+                    run.case(format!("flow:{h:?}:{step}").as_bytes(), true);
+                    // C01's settled-state clauses on the real driver
+                    let mut violated = false;
+                    for k in 0..3 {
+                        let key = &uni.keys[k];
+                        let s = node_store(&mut b);
+                        let got = s.get(key).map(|x| x.into_owned().value);
+                        let listed: Option<ant_protocol::storage::RecordType> = s.verif_record_addresses().into_iter().find(|(a, _)| a.to_record_key() == *key).map(|(_, t)| t);
+                        let w = json!({"engine": "flow-differential (real SwarmDriver)", "history": format!("{h:?}"), "after_step": step, "key": k});
+                        match latest[k] {
+                            Some(Some(v)) => {
+                                let val = &uni.values[k][v];
+                                let want_type = crate::store_rig::record_type_of(&Record { key: key.clone(), value: val.clone(), publisher: None, expires: None });
+                                if got.as_ref() != Some(val) {
+                                    violated = true;
+                                    run.violation("settled-write-readable", "real-driver-flow", format!("k{k}: after {:?} and settling, the real driver's store reads {:?} bytes, the latest accepted write has {}", &h[..=step], got.as_ref().map(|g| g.len()), val.len()), w.clone());
+                                }
+                                if listed != want_type {
+                                    violated = true;
+                                    run.violation("settled-write-listed", "real-driver-flow", format!("k{k}: after {:?} and settling, the real driver's store lists it as {listed:?}, the latest accepted write is {want_type:?}", &h[..=step]), w);
+                                }
+                            }
+                            Some(None) => {
+                                if got.is_some() || listed.is_some() {
+                                    violated = true;
+                                    run.violation("removed-not-listed", "real-driver-flow", format!("k{k}: removed, yet after settling the real driver's store still serves / lists it"), w);
+                                }
+                            }
+                            None => {}
+                        }
+                    }
+                    let (oa, ob) = (observe_store_rig(&a, &uni.keys), observe_driver(&mut b, &uni.keys));
+                    if oa != ob {
+                        if !violated {
+                            let mut g = first_mismatch.lock().unwrap();
+                            if g.is_none() {
+                                *g = Some(format!("store rig and real SwarmDriver disagree after step {step} of {h:?} (settled):\n rig   ={oa}\n driver={ob}"));
+                            }
+                        }
+                        break;
+                    }
+                }
+                drop(a);
+                drop(b);
+                let _ = std::fs::remove_dir_all(&s1);
+                let _ = std::fs::remove_dir_all(&s2);
+            });
+        }
+    });
+    run.count("traces_validated_against_impl", total as u64);
+    run.extra("flow_differential", json!({"histories": total, "api_ops": 3}));
+    println!("[{}] flow differential store-rig vs SwarmDriver: {} histories of <=3 API operations, each settled", run.id, total);
+    let mismatch: Option<String> = first_mismatch.lock().unwrap().clone();
+    if let Some(m) = mismatch {
+        run.machinery_error(&format!("the store rig does not mirror cmd.rs: {m}"));
+    }
+}
+
 pub fn c01_differential(run: &Run) {
     let peer = rigs::fixtures::peer_id(1);
     let uni = crate::c01::universe(peer);
